@@ -132,8 +132,11 @@ class BasicOptimizer:
             for key, value in self._kwargs.items():
                 if plan.handler_exists(key):
                     plan.add_handler(key, sources={optimizer}, **{key: value})
+            # The context is shared by all runs, each callback must be added to
+            # it only once, or it is called repeatedly in a later run:
             for event_type, function in self._observers:
                 self._optimizer_context.add_observer(event_type, function)
+            self._observers = []
 
         results, exit_code = plan.run_function(self._transforms)
         variables = None if results is None else results.evaluations.variables
